@@ -98,6 +98,21 @@ def step (s : St) (ts : List String) : St × List String :=
     match findVrf s v with
     | some vr => (s, [showNats ((vrfSelect vr (s.tbl.dest (nat! rd, nat! pfx))).map (·.marker))])
     | none => (s, ["bad-op"])
+  | ["vinfo", v] =>
+    match findVrf s v with
+    | some vr => let r := vrfInfo s.tbl vr; (s, [s!"{r.1} {r.2}"])
+    | none => (s, ["bad-op"])
+  | ["delvrfpaths", v] =>
+    match findVrf s v with
+    | some vr =>
+      let ps := delVrfPaths s.tbl vr
+      let t' := s.tbl.withdrawAll ps
+      -- with a single withdrawn route the per-peer `chg` / `cechg` questions refer to its destination
+      let (lo, ln) := match ps with
+        | [p] => (s.tbl.dest p.nlri, t'.dest p.nlri)
+        | _ => ([], [])
+      ({ s with tbl := t', lastOld := lo, lastNew := ln }, [showNats (sortBy id (ps.map (·.marker)))])
+    | none => (s, ["bad-op"])
   | ["mem", peer, rt, as, pid, wd] =>
     let r := rtmOf s (nat! peer)
     let m : Mem := ⟨nat! rt, nat! as, nat! pid⟩
